@@ -10,15 +10,66 @@ def hook_commits():
 
 CHECKS = {
  # id: (technique, level text, level note, design ref)
+ "C01": ("bounded-exhaustive enumeration + property-based generation + coverage-guided fuzzing against a no-panic / heap-bound / CPU-watchdog oracle",
+         "Every truncation and single-byte perturbation of reference encodings of all 40 types, all short buffers, all bodies up to 5 (7) bytes over a 12-symbol alphabet, generated pointer graphs up to 64 KiB and mutated reference encodings are parsed under panic capture, a per-thread heap meter and a thread-CPU watchdog; thorough adds libFuzzer campaigns with the same oracle in-target. Exploration: absence is not established beyond the enumerated bounds.",
+         "Heap bound 64 KiB + 1024*len calibrated on the densest legitimate input; time asserted only through the 5 s / 20 s CPU watchdog; inputs capped at 65535 bytes.", "4/C01"),
+ "C02": ("property-based round trip: abstract packet -> public constructors -> build_bytes_vec -> parse -> field-by-field observation",
+         "Generated packets over every typed variant, unknown and empty RDATA, binary labels, boundary integers, EDNS, named codes; the parsed packet is observed through public accessors and byte hooks and compared with the generating model, not with the library's own PartialEq.",
+         "Trusts the bridge (checks keyed by field name) and the documented construction domain (exclusions listed in the evidence assumptions).", "4/C02"),
+ "C03": ("property-based differential: compressed vs plain serialisation vs model, suffix-sharing names, sizes straddling 16 KiB",
+         "Generated suffix-sharing packets with filler that moves names just below / at / above offset 16383 and up to 65535 bytes; compressed and plain outputs must parse to the model and compressed must not be longer.",
+         "Same exclusions as C02; large messages are a weighted minority of cases (reported in coverage.classes).", "4/C03"),
+ "C04": ("property-based + capacity enumeration: independent envelope walker and byte equality across writer configurations",
+         "Generated packets x {plain, compressed} x {Vec, growable cursor at offset 0/2/k over empty and pre-filled storage, fixed slices and cursors of every capacity 0..len+2}; framing checked by an independent RFC 1035 walker plus the schema decoder.",
+         "Capacity sweep is complete only for 15% of packets up to 600 bytes, 11 boundary capacities otherwise; cursor position after the write is not checked.", "4/C04"),
+ "C05": ("property-based differential against an independent RFC 1035 envelope walker + schema decoder confined to each RDLENGTH slice",
+         "Reference encodings with RDLENGTH larger (random or record-shaped surplus) or smaller than the typed content, bumped section counts and mutated encodings; walker failure or content outside its frame => library must reject; library Ok => entries equal the framed entries.",
+         "The library may reject for reasons of its own; no claim then. Reference schema is my RFC transcription (anchored on dnspython samples in C10).", "4/C05"),
+ "C06": ("bounded-exhaustive enumeration + property-based generation against an independent RFC 1035 4.1.4 name decoder",
+         "Every buffer up to 6 (7) bytes over a 12-symbol alphabet at every start offset, names around 255 bytes, and random label/pointer soups are decoded by the library (hook Name::verif_parse) and by a reference decoder with a visited set; labels, resume offset and error classes are compared.",
+         "Forward pointers and chains longer than 32 hops may be refused without claim; exhaustive only within the stated alphabet and length.", "4/C06"),
+ "C07": ("property-based with an independent schema-aware pointer walker over compressed output, writers at non-zero origin",
+         "Every name occurrence (question, owner, RDATA names by type) of generated compressed messages is located independently; pointers must be backwards, <= 16383, onto a label start of an earlier-written name and relative to the message start; forbidden positions uncompressed; repeated RFC 1035 names compressed.",
+         "RP/AFSDB/RT/NSAP-PTR names are accepted compressed or not (statement silent).", "4/C07"),
  "C08": ("exhaustive enumeration of all header words / flag-set pairs against an RFC 1035 bit-layout oracle",
          "Complete enumeration of the finite input space named by the property (65536 words x ids, 128x128 flag sets, named opcode x rcode x flags); every value is compared with an independently written bit decomposition.",
          "Trusts the bit layout typed into checks/c08.rs from RFC 1035 4.1.1; counts are sampled, not enumerated, for the peek functions.", "4/C08"),
+ "C09": ("property-based differential against an independent RFC 6891 OPT encoder/decoder, build and parse side",
+         "Build side: an independent walker checks the single OPT record (section, ARCOUNT, root owner, CLASS, TTL octets, RDATA, header nibble). Parse side: reference encodings with OPT at any additional index, arbitrary DO/Z bits and 12-bit response codes.",
+         "Unnamed response codes only need to show as Reserved.", "4/C09"),
+ "C10": ("property-based differential against an independent declarative RFC schema (encoder + decoder), byte for byte, plus structural-rule and mutation cases, anchored on dnspython samples",
+         "For each of the 40 types: reference encoding -> parse -> values; values -> build -> bytes equal the reference encoding; rule-breaking encodings (LOC version, SVCB key order, NSEC window order, inner length overruns) and single-byte mutations judged by the reference decoder; externally produced samples decode identically.",
+         "The schema is my transcription of the RFCs (DESIGN.md appendix A), cross-checked against 30 dnspython-made files at every run.", "4/C10"),
+ "C11": ("property-based + exhaustive header words: parse -> build -> parse metamorphic relation on parser-accepted inputs",
+         "Reference encodings with foreign compression, stray OPT records, any opcode / response code, all 65536 header words, and accepted mutated encodings; after re-serialisation (plain and compressed) every observable field must be equal.",
+         "Observation through public accessors and byte hooks; opcode()/rcode() compared as the caller sees them.", "4/C11"),
+ "C12": ("property-based: every public observer applied to every part of parser-accepted packets under panic capture, with UTF-8 metamorphic checks",
+         "Inputs biased to invalid UTF-8, NUL, dots, backslashes, empty and maximal strings; Debug/Display/clone/into_owned/eq/hash/suffix algebra/matching/TXT conversions are all invoked on every part.",
+         "WireFormat::len is crate-private and not an observer.", "4/C12"),
+ "C13": ("model-based testing: bounded-exhaustive catalogue + random histories against a set-based reference store and matcher (lower/upper bound on answers)",
+         "Every subset of <= 3 (4) records of a catalogue whose names collide under concatenation x 288 questions and sampled pairs, plus random add/remove/clear histories and queries; answers must lie between the must-answer and may-answer sets; additional records, id, flags, unicast and no-reply conditions checked.",
+         "Lowercase names only; MAILA/AXFR/IXFR matching not claimed; driven through the simple_mdns::verif hook.", "4/C13"),
+ "C14": ("property-based sequences through a step-for-step copy of the three receive loops under panic capture and a real RwLock, plus sampled fault injection over real loopback multicast sockets",
+         "Datagram sequences (empty, short, random, mutated, hostile names, large) against arbitrary stores; no panic, lock not poisoned, replies parse, store still answers; a real responder and discovery service receive generated datagrams between two probe queries.",
+         "The pure pipeline copies the loop bodies; only the socket section sees edits to the loops. Interleavings on the shared store are not explored. Socket section makes no claim without usable multicast.", "4/C14"),
+ "C15": ("model-based testing: advertise -> compressed wire -> ingest -> report, two-sided comparison with the advertised set; escape/unescape round trip",
+         "Peers, repeated announcements and noise (own instance, service-name PTR, colliding foreign services, deeper names) are ingested with the receive loop's own function and read back as get_known_services does; reported set must equal the advertised set exactly.",
+         "Driven through the simple_mdns::verif hook with the store initialised as ServiceDiscovery::new does; the async variant shares the store and from_records only.", "4/C15"),
+ "C16": ("property-based: clone / into_owned / built-vs-parsed triples compared by ==, observation, hash and bytes; set-valued values rebuilt in permuted orders",
+         "Three versions of every value (built, borrowed from plain buffer, borrowed from compressed buffer) and their clones / owned copies must be equal, hash equally and serialise identically; InstanceInformation rebuilt 32 times in rotated/reversed insertion orders.",
+         "DefaultHasher::new() for hash comparison; HashSet RandomState only affects how fast an order-dependent Hash is caught.", "4/C16"),
  "C17": ("bounded-exhaustive enumeration of strings / lengths / name pairs against a grammar and suffix oracle",
          "All strings up to length 6 (7 thorough) over the 8-symbol alphabet, all label lengths 0..70, wire lengths 240..260, all pairs of small names: exhaustive within the stated bounds, sampled beyond them.",
          "Grammar written from the statement; 'letter/digit' read as ASCII.", "4/C17"),
  "C18": ("exhaustive enumeration of all 16-bit codes and the full record x question matrices against an IANA table",
          "Complete enumeration of all 65536 codes through the four conversions and of the (record type, question type) and (class, qclass) matrices, for records both constructed and parsed.",
          "IANA registry values typed into checks/c18.rs; MAILA/AXFR/IXFR matching not covered (statement silent).", "4/C18"),
+ "C19": ("property-based round trips and a reference splitter; exhaustive length enumeration for construction limits",
+         "Unicode strings around multiples of 254/255 bytes with multi-byte and look-alike characters, attribute maps with absent/empty values and duplicates, attribute strings with look-alike separators, all lengths 0..300 for construction.",
+         "Empty keys not generated (RFC 6763 6.4).", "4/C19"),
+ "C20": ("model-based testing with a controllable clock (additive ageing hook) and measured-time interval soundness, plus real-sleep histories",
+         "Histories of add-authoritative / add-cached(ttl, flush) / re-add / remove / clear / advance, all names x all four filters queried after every step against a model with explicit reception instants; claims are made only when measured monotonic time proves them.",
+         "verif_age(d) is assumed equivalent to advancing the clock (the store only compares stored instants with Instant::now()); cross-checked by a real-clock section. Completeness is asserted only for the record's own name or an ancestor that owns an entry.", "4/C20"),
 }
 
 def main():
@@ -37,7 +88,7 @@ def main():
             "technique": tech,
         })
     props = [json.loads(l)["id"] for l in open(os.path.join(HERE, "properties.jsonl"))]
-    not_app = [{"property_id": p, "reason": "check not built yet in this session (work in progress; see DESIGN.md section 4 for the planned generated-input check)"} for p in props if p not in CHECKS]
+    not_app = [{"property_id": p, "reason": "not claimed"} for p in props if p not in CHECKS]
     m = {
         "version": 1,
         "setup_cmd": "cd /verif/harness && ln -sfn /repo .repo && CARGO_NET_OFFLINE=true cargo build --release --offline",
